@@ -38,6 +38,10 @@ pub struct EnvCase {
     pub steps: Vec<StepSpec>,
     /// append two draining steps (market sell / market buy for the whole opposite volume)
     pub drain: bool,
+    /// large volumes with exact accounting: at most one volume-adding instruction per step (so what it will
+    /// trade is known at submission), volumes bounded by what rests / was traded, not by what was ever created
+    #[serde(default)]
+    pub exact_vols: bool,
 }
 
 #[derive(Clone, Copy, Debug, Default)]
@@ -162,12 +166,16 @@ impl<'a> Ctx<'a> {
             let t = bk.get_time();
             bk.set_time(t + 1);
             let n0 = bk.n_trades();
+            // (each drain may trade a whole side: restart the traded-volume counter first)
+            bk.reset_trade_vol();
             let bv = bk.bid_vol();
             if bv > 0 {
                 let _ = bk.create_and_place_order(false, bv, 0, None);
             }
             let av = bk.ask_vol();
             if av > 0 {
+                // (the two drains together may trade more than 2^32: restart the counter in between)
+                bk.reset_trade_vol();
                 let _ = bk.create_and_place_order(true, av, 0, None);
             }
             sig.push(bk.trades_from(n0).iter().map(|t| t.passive).collect());
@@ -334,8 +342,20 @@ fn run_inner(case: &EnvCase, orc: EnvOracles, prop: &str, feat: &mut EnvFeatures
                     let a = (*asset as usize) % n;
                     let k = *bid as usize;
                     let price = &crate::ops::limit_price(*bid, *price, case.ticks[a]);
+                    if case.exact_vols && !is_drain && !batch.instrs.is_empty() {
+                        feat.skipped_instr += 1;
+                        continue;
+                    }
                     let v = if is_drain {
                         *vol
+                    } else if case.exact_vols {
+                        let orders = env.get_orders(a);
+                        let tradable = match (trading, price) {
+                            (true, Some(p)) if p % case.ticks[a] == 0 => crate::ops::tradable_now(&orders, *bid, *p),
+                            _ => 0,
+                        };
+                        // the per-step counter restarts at the step; this is the step's only trading instruction
+                        crate::ops::admissible_vol(&orders, 0, *bid, *vol, 0, tradable, price.is_some(), total_instr - instr_seen.min(total_instr), 1)
                     } else {
                         let avail = budget[a][k].saturating_sub((total_instr - instr_seen.min(total_instr)) as u64 + 4).max(1);
                         let v = ((*vol).max(1) as u64).min(avail);
@@ -416,6 +436,8 @@ fn run_inner(case: &EnvCase, orc: EnvOracles, prop: &str, feat: &mut EnvFeatures
                     unpinned += 1;
                     let o = &orders[id];
                     let price = &crate::ops::limit_price(o.bid, *price, case.ticks[a]);
+                    // exact-volume cases: a modification never raises the volume (only new orders add volume there)
+                    let vol = if case.exact_vols { vol.map(|v| v.clamp(1, o.vol.max(1))) } else { *vol };
                     let vol = vol.map(|v| {
                         // charge potential increases against the budget of the order's side
                         let k = o.bid as usize;
